@@ -20,6 +20,7 @@ class Grammar(qc.QGrammar):
         qc.perturbation_cfg(P, h, kind, cpu)
         P.queue(0, 0, -1)
         P.queue(2, 2, -1)
+        P.queue(3, 4, -1)          # a workloop
         n = [1, 2, 4, 8, 12, 24][h[10] % 6]
         maxdl = 0
         for s in range(n):
@@ -32,7 +33,7 @@ class Grammar(qc.QGrammar):
             settimer_at = [0, 0, 0, 1, 2][b2 % 5]
             na, nb = STARTS_NS[2 + (b2 >> 3) % 5], INTERVALS_NS[(b2 >> 5) % 7]
             cancel_at = [0, 0, 0, 3, 6][(b2 >> 2) % 5] if interval else 0
-            P.source(s, sc.T_TIMER, [0, 2][(b2 >> 1) % 2], flags=2 | (4 if b2 & 1 else 0), hwork=[0, 0, 200, 3001][(b >> 1) % 4], cancel_at=cancel_at, settimer_at=settimer_at,
+            P.source(s, sc.T_TIMER, [0, 2, 3, 2][((b2 >> 1) ^ (b >> 5)) % 4], flags=2 | (4 if b2 & 1 else 0), hwork=[0, 0, 200, 3001][(b >> 1) % 4], cancel_at=cancel_at, settimer_at=settimer_at,
                      a=start, b=interval, c=[0, 0, 100000, 1000000][(b2 >> 6) % 4], na=na, nb=nb, clock=clock)
             maxdl = max(maxdl, start if start < FAR_NS else 0, na if settimer_at else 0)
         P.nsrc = n
@@ -49,7 +50,7 @@ class Grammar(qc.QGrammar):
     def emit_s(self, P, ctx, kind, a, b, c):
         s = a % P.nsrc
         if kind == "after":
-            return P.op(ctx, "after", a=[0, 2][b % 2], b=c & 1, c=[0, 1000, 50000, 300000, 1000000, 4000000, 10000000][(b >> 1) % 7], d=(c >> 1) % 3, thread=ctx)
+            return P.op(ctx, "after", a=[0, 2, 3, 2][b % 4], b=c & 1, c=[0, 1000, 50000, 300000, 1000000, 4000000, 10000000][(b >> 1) % 7], d=(c >> 1) % 3, thread=ctx)
         if kind == "resettle":
             # replace the settings while the source is certainly suspended: only the new settings may be followed afterwards
             # replacements of one timer's settings must be totally ordered to be judged: one owner thread, and never on a timer whose handler re-arms itself
